@@ -62,17 +62,37 @@ class PvaStub(Opaque):
 
 
 class SensorIndex:
-    def __init__(self, sid):
-        self.sid = sid
+    """index of one sensor's table, possibly restricted by a boolean mask on the stamps"""
+
+    def __init__(self, sid, lo=None, hi=None):
+        self.sid, self.lo, self.hi = sid, lo, hi
+
+    def __ge__(self, o): return Mask([("ge", _z(o))])
+    def __gt__(self, o): return Mask([("gt", _z(o))])
+    def __le__(self, o): return Mask([("le", _z(o))])
+    def __lt__(self, o): return Mask([("lt", _z(o))])
 
 
 class DataStub(Opaque):
-    def __init__(self, sid):
+    def __init__(self, sid, lo=None, hi=None):
         object.__setattr__(self, "_sid", sid)
+        object.__setattr__(self, "_lo", lo)
+        object.__setattr__(self, "_hi", hi)
 
     @property
     def index(self):
-        return SensorIndex(self._sid)
+        return SensorIndex(self._sid, self._lo, self._hi)
+
+    def __getitem__(self, k):
+        if not isinstance(k, Mask):
+            return OPAQUE
+        lo, hi = self._lo, self._hi
+        for kind, v in k.parts:
+            if kind in ("ge", "gt"):
+                lo = (kind, v)
+            else:
+                hi = (kind, v)
+        return DataStub(self._sid, lo, hi)
 
 
 class MeasStub:
@@ -80,9 +100,13 @@ class MeasStub:
     sid = 0
 
     def __init__(self, world):
-        self.world = world
-        self.data = DataStub(self.sid)
-        self.calls = []
+        self.__dict__.update(world=world, data=DataStub(self.sid), calls=[], writes=[])
+
+    def __setattr__(self, k, v):
+        """frame: the caller's measurement objects are inputs; a store on one by the code under test is recorded"""
+        if k != "calls":
+            self.writes.append(k)
+        self.__dict__[k] = v
 
     def compute_matrices(self, time_, pva, error_model):
         w = self.world
@@ -210,7 +234,13 @@ class ZNp:
             raise ObligationFailed("np.hstack([]) raises")
         if any(not isinstance(x, (SensorIndex, EmptyArr)) for x in seq):
             raise Concretization("hstack of unknown objects %r" % (seq,))
-        return Bag(self.w, [x.sid for x in seq if isinstance(x, SensorIndex)])
+        idx = [x for x in seq if isinstance(x, SensorIndex)]
+
+        def same(a, b):
+            return (a is None and b is None) or (a is not None and b is not None and a[0] == b[0] and z3.eq(a[1].v, b[1].v))
+        if idx and not all(same(x.lo, idx[0].lo) and same(x.hi, idx[0].hi) for x in idx):
+            raise Concretization("sensor tables clipped to different spans before the union")
+        return Bag(self.w, [x.sid for x in idx], lo=idx[0].lo if idx else None, hi=idx[0].hi if idx else None)
 
     def concatenate(self, seq, *a, **k):
         return self.hstack(seq)
@@ -307,6 +337,32 @@ class IncRow(Opaque):
             w = self._w
             w.c.assume(w.DT(self._i) > 0, "Increments schema: dt > 0")
             return ZSym(w.DT(self._i))
+        return OPAQUE
+
+    def _scaled(self, o):
+        if isinstance(o, ZSym):
+            return ScaledRow(self._w, self._i, o)
+        return OPAQUE
+    __mul__ = __rmul__ = _scaled
+
+
+class ScaledRow(Opaque):
+    """scalar * (row of the increments table): pandas keeps the row's label; every cell, dt included, is scaled"""
+
+    def __init__(self, world, i, factor):
+        object.__setattr__(self, "_w", world)
+        object.__setattr__(self, "_i", i)
+        object.__setattr__(self, "_f", factor)
+
+    @property
+    def name(self):
+        return ZSym(self._w.Tt(self._i))
+
+    def __getitem__(self, k):
+        if isinstance(k, str) and k == "dt":
+            w = self._w
+            w.c.assume(w.DT(self._i) > 0, "Increments schema: dt > 0")
+            return self._f * ZSym(w.DT(self._i))
         return OPAQUE
 
 
@@ -408,7 +464,10 @@ class IntegratorStub:
         self.calls.append(("set_pva",))
 
     def predict(self, increment):
+        """contract (C02.*.predict.label): the predicted state is labelled like the increment row it was given"""
         self.calls.append(("predict",))
+        if isinstance(increment, (IncRow, ScaledRow)):
+            return PvaStub(increment.name)
         return OPAQUE
 
     def integrate(self, batch):
